@@ -126,6 +126,29 @@ pub fn make_case(class: u64, idx: u64, seed: u64) -> Case {
     if r.chance(1, 8) {
         password = String::new();
     }
+    if class == 8 {
+        // password lengths: every length up to 300 UTF-16 units, then long ones; the units being one- or two-unit characters
+        let units = if idx % 400 < 320 { (idx % 400) as usize } else { *r.pick(&[511usize, 512, 513, 1000, 4096, 20000]) };
+        let style = (idx / 400) % 3;
+        let mut pw = String::new();
+        let mut left = units;
+        while left > 0 {
+            let c = match style {
+                0 => *r.pick(&['a', 'Z', '7', '!']),
+                1 => *r.pick(&['\u{e9}', '\u{416}', '\u{4e2d}', 'x']),
+                _ => *r.pick(&['\u{1f511}', '\u{1f600}', 'q', '\u{e9}']),
+            };
+            if c.len_utf16() > left {
+                pw.push('k');
+                left -= 1;
+            } else {
+                pw.push(c);
+                left -= c.len_utf16();
+            }
+        }
+        password = pw;
+        cls = "password-lengths";
+    }
     // target info: random subset and order of AV pairs 1..10 with random lengths, always a timestamp
     let mut pairs: Vec<(u16, Vec<u8>)> = Vec::new();
     for id in 1u16..=10 {
@@ -269,7 +292,7 @@ pub fn run(cfg: &Cfg) -> Report {
             }
         }
     }
-    let plan: Vec<(u64, u64)> = vec![(0, cfg.n(10_000, 1_200_000)), (1, cfg.n(3_000, 200_000)), (2, cfg.n(1_000, 100_000)), (3, cfg.n(3_000, 200_000)), (4, cfg.n(500, 20_000)), (5, cfg.n(2_500, 200_000)), (6, cfg.n(300, 20_000))];
+    let plan: Vec<(u64, u64)> = vec![(0, cfg.n(10_000, 1_200_000)), (1, cfg.n(3_000, 200_000)), (2, cfg.n(1_000, 100_000)), (3, cfg.n(3_000, 200_000)), (4, cfg.n(500, 20_000)), (5, cfg.n(2_500, 200_000)), (6, cfg.n(300, 20_000)), (8, cfg.n(1_200, 60_000))];
     for (class, n) in plan {
         if !cfg.wants(class) {
             continue;
@@ -313,29 +336,51 @@ fn connector_case(idx: u64, seed: u64, rep: &mut Report) {
     } else {
         c.password = real_password.clone();
     }
-    let mut p = crate::refs::proto::Profile::default();
-    p.selected_protocol = 2;
-    let d = crate::server::Duplex::new(p);
-    let mut nr = Rng::derive(seed, "C15-connector-nla", 7, idx);
-    let mut nla = crate::gen::nla_cfg(&mut nr, &c);
-    nla.account = Account { domain: c.domain.clone(), user: c.user.clone(), nt_hash: ntlm::nt_hash(&real_password) };
-    d.with(|s| {
-        s.tls_identity = 2;
-        s.nla_cfg = nla;
-    });
-    let probe = d.clone();
-    let cfgc = c.clone();
-    let res = mon::guarded(move || crate::client::connect_real(&cfgc, d.clone()).map(|_| ()).map_err(|e| client::err_kind(&e)));
+    // one Connector, one to three connections in a row (a reconnection after a lost link uses the same object): every
+    // one of them faces a server of its own that knows the account, and every token is judged
+    let rounds = 1 + (idx / 2) % 3;
     let rp = json!({"connector_case": [idx, seed]});
+    let servers: Vec<crate::server::Duplex> = (0..rounds)
+        .map(|k| {
+            let mut p = crate::refs::proto::Profile::default();
+            p.selected_protocol = 2;
+            let d = crate::server::Duplex::new(p);
+            let mut nr = Rng::derive(seed, "C15-connector-nla", 7 + k, idx);
+            let mut nla = crate::gen::nla_cfg(&mut nr, &c);
+            nla.account = Account { domain: c.domain.clone(), user: c.user.clone(), nt_hash: ntlm::nt_hash(&real_password) };
+            d.with(|s| {
+                s.tls_identity = 2;
+                s.nla_cfg = nla;
+            });
+            d
+        })
+        .collect();
+    let probes = servers.clone();
+    let cfgc = c.clone();
+    let res = mon::guarded(move || {
+        let mut k = crate::client::connector(&cfgc);
+        let mut out = Vec::new();
+        for d in servers {
+            out.push(k.connect(d).map(|_| ()).map_err(|e| client::err_kind(&e)));
+        }
+        out
+    });
     match res {
         Err(pn) => rep.violation(format!("C15/connector/{}", pn.sig()), format!("{} at {}:{}", pn.msg, pn.file, pn.line), rp),
         Ok(_) => {
-            let auth = probe.with(|s| s.nla_log.auth.clone());
-            match auth {
-                Some(Ok(_)) => rep.hist("accepted"),
-                Some(Err(e)) if e.contains("payload starts at offset") => rep.hist("no-version-layout(known)"),
-                Some(Err(e)) => rep.violation(format!("C15/connector-{}/rejected:{}", if by_hash { "hash" } else { "password" }, mon::normalise(&e)), format!("the reference CredSSP server rejects the AUTHENTICATE token of a Connector configured by {}: {}", if by_hash { "NT hash" } else { "password" }, e), rp),
-                None => rep.inconclusive("the AUTHENTICATE round was not reached"),
+            for (k, probe) in probes.iter().enumerate() {
+                let auth = probe.with(|s| s.nla_log.auth.clone());
+                let nth = if k == 0 { "" } else { "-reconnection" };
+                match auth {
+                    Some(Ok(_)) => rep.hist(if k == 0 { "accepted" } else { "accepted-on-reconnection" }),
+                    Some(Err(e)) if e.contains("payload starts at offset") => rep.hist("no-version-layout(known)"),
+                    Some(Err(e)) => rep.violation(
+                        format!("C15/connector-{}{}/rejected:{}", if by_hash { "hash" } else { "password" }, nth, mon::normalise(&e)),
+                        format!("connection {} of {} on one Connector configured by {}: the reference CredSSP server rejects the AUTHENTICATE token: {}", k + 1, rounds, if by_hash { "NT hash" } else { "password" }, e),
+                        rp.clone(),
+                    ),
+                    None => rep.inconclusive("the AUTHENTICATE round was not reached"),
+                }
             }
             rep.nontrivial(idx ^ 0xC15C);
         }
